@@ -208,6 +208,11 @@ class Pkg(object):
         _canon.FOREIGN_INLINED.clear()
         _canon.FOREIGN.clear()
         _canon.FOREIGN.update(_canon.build_foreign({name: m.tree for name, m in self.mods.items()}, _KNOWN))
+        from .nullness import Nullness as _Nullness
+        try:
+            _canon.NULLNESS = _Nullness({name: m.tree for name, m in self.mods.items()})
+        except RecursionError:
+            _canon.NULLNESS = None
         for mod in self.mods.values():
             mod.canonicalise()
         if os.environ.get("SA_NO_CANON") != "1":
